@@ -360,8 +360,15 @@ func (p *Parser) parseItem() (secs2.Item, error) {
 	return item, nil
 }
 
+// maxListPrealloc bounds the number of child slots reserved up front for a list;
+// longer lists grow by append.
+const maxListPrealloc = 64
+
 func (p *Parser) parseList(size int) (secs2.Item, error) {
-	childItems := make([]secs2.Item, 0, size)
+	// The size is only a hint written in the text: never reserve more slots than
+	// the remaining input could hold children (a child is at least "<L>"), nor
+	// more than maxListPrealloc.
+	childItems := make([]secs2.Item, 0, min(size, len(p.data)/3, maxListPrealloc))
 
 	for {
 		switch ch := p.peekNonSpaceRune(); ch {
@@ -419,7 +426,9 @@ func (p *Parser) parseASCIIStrict(size int) (secs2.Item, error) {
 	isNumStr := false
 	isEscapedCh := false
 	var sb strings.Builder
-	sb.Grow(size)
+	// The size is only a hint written in the text: reserve at most what the text
+	// up to the first '>' could hold (nothing if the item is not terminated at all).
+	sb.Grow(min(size, strings.IndexByte(p.data, '>')+1))
 
 	for i, ch := range p.data {
 		switch {
@@ -687,10 +696,11 @@ func unquoteLocalizedStr(data string, quoteCh rune) string {
 	return data
 }
 
-func (p *Parser) parseBoolean(size int) (secs2.Item, error) {
-	items := make([]bool, 0, size)
+func (p *Parser) parseBoolean(_ int) (secs2.Item, error) {
 	start := p.pos
 	values := p.getItemValueStrings()
+	// sized by the value tokens actually present, not by the size hint in the text
+	items := make([]bool, 0, len(values))
 
 	for _, val := range values {
 		switch strings.ToUpper(val) {
@@ -706,10 +716,11 @@ func (p *Parser) parseBoolean(size int) (secs2.Item, error) {
 	return secs2.NewBooleanItem(items), nil
 }
 
-func (p *Parser) parseBinary(size int) (secs2.Item, error) {
-	items := make([]byte, 0, size)
+func (p *Parser) parseBinary(_ int) (secs2.Item, error) {
 	start := p.pos
 	values := p.getItemValueStrings()
+	// sized by the value tokens actually present, not by the size hint in the text
+	items := make([]byte, 0, len(values))
 
 	for _, val := range values {
 		item, err := strconv.ParseInt(val, 0, 0)
@@ -727,10 +738,11 @@ func (p *Parser) parseBinary(size int) (secs2.Item, error) {
 	return secs2.NewBinaryItem(items), nil
 }
 
-func (p *Parser) parseFloat(byteSize int, size int) (secs2.Item, error) {
-	items := make([]float64, 0, size)
+func (p *Parser) parseFloat(byteSize int, _ int) (secs2.Item, error) {
 	start := p.pos
 	values := p.getItemValueStrings()
+	// sized by the value tokens actually present, not by the size hint in the text
+	items := make([]float64, 0, len(values))
 
 	for _, val := range values {
 		item, err := strconv.ParseFloat(val, byteSize*8)
@@ -748,10 +760,11 @@ func (p *Parser) parseFloat(byteSize int, size int) (secs2.Item, error) {
 	return secs2.NewFloatItem(byteSize, items), nil
 }
 
-func (p *Parser) parseInt(byteSize int, size int) (secs2.Item, error) {
-	items := make([]int64, 0, size)
+func (p *Parser) parseInt(byteSize int, _ int) (secs2.Item, error) {
 	start := p.pos
 	values := p.getItemValueStrings()
+	// sized by the value tokens actually present, not by the size hint in the text
+	items := make([]int64, 0, len(values))
 
 	for _, val := range values {
 		item, err := strconv.ParseInt(val, 0, byteSize*8)
@@ -769,10 +782,11 @@ func (p *Parser) parseInt(byteSize int, size int) (secs2.Item, error) {
 	return secs2.NewIntItem(byteSize, items), nil
 }
 
-func (p *Parser) parseUint(byteSize int, size int) (secs2.Item, error) {
-	items := make([]uint64, 0, size)
+func (p *Parser) parseUint(byteSize int, _ int) (secs2.Item, error) {
 	start := p.pos
 	values := p.getItemValueStrings()
+	// sized by the value tokens actually present, not by the size hint in the text
+	items := make([]uint64, 0, len(values))
 
 	for _, val := range values {
 		item, err := strconv.ParseUint(val, 0, byteSize*8)
